@@ -650,5 +650,8 @@ PROPS["C09"]["explanation"] += " (AXISGUARD) in GRwriteimage a decision on one a
 PROPS["C11"]["rules"] = PROPS["C11"]["rules"] + [rules_ann.rule_rewrite_reuses_element]
 PROPS["C11"]["explanation"] += " (REUSEOLD) whether a rewritten annotation's old element is released depends only on the new/existing flag."
 
+PROPS["C01"]["rules"] = PROPS["C01"]["rules"] + [rules_limits.rule_clamp_sign_checked]
+PROPS["C01"]["explanation"] += " (NEGCLAMP) a request the read routines clamp to `length - posn` is compared with 0 before it is used (the position may lie beyond the end)."
+
 NOT_APPLICABLE = {}
 
